@@ -503,6 +503,9 @@ func fuzzOne(b []byte, sel uint8) error {
 	}
 	setIn(&c, b)
 	_, err := check(c)
+	if id := matchKnown(c, err); id != "" && hx.IsKnown(id) {
+		return nil // a known finding must not end the campaign
+	}
 	return err
 }
 
